@@ -1,7 +1,7 @@
 (* C13 - RESP decoding is safe on any bytes and independent of packet boundaries. *)
 From Coq Require Import ZArith NArith List Bool.
 Import ListNotations.
-Require Import TC.Generated.Consts TC.Resp.Utf8 TC.Resp.Decimal TC.Resp.Parse TC.Resp.ParseProofs TC.Resp.Conn TC.Resp.ConnProofs.
+Require Import TC.Generated.Consts TC.Resp.Utf8 TC.Resp.Decimal TC.Resp.Parse TC.Resp.ParseProofs TC.Resp.Local TC.Resp.Conn TC.Resp.ConnProofs.
 Open Scope N_scope.
 
 (* For ANY byte sequence and any parser depth: decoding terminates with enough fuel (the model's
@@ -55,47 +55,57 @@ Theorem C13_strict_prefix_needs_more :
 Proof. exact strict_prefix_needs_more. Qed.
 Print Assumptions C13_strict_prefix_needs_more.
 
-(* chunking independence of the connection loop (any "is QUIT" test): feeding a stream chunk by
-   chunk decodes the same command sequence and ends in the same status as decoding the
-   concatenation at once; while open, the undecoded leftover coincides *)
+(* CHUNKING INDEPENDENCE OF THE REAL CONNECTION LOOP, buffer limit included (any "is QUIT" test): however
+   the byte stream is cut into socket reads, the commands delivered are those of decoding the whole
+   stream at once, and the connection is open afterwards exactly when the whole-stream reference is
+   (closed by QUIT exactly when it is).  Frames of at most MAX_BUFFER_SIZE bytes are always accepted,
+   longer ones always refused. *)
 Theorem C13_chunking_independent :
-  forall (isq : value -> bool) (chunks : list bytes) (buf : bytes) (depth : nat),
-  drain_all isq depth buf = ([], buf, depth, CNeedMore) ->
-  let r1 := run_nocap isq (buf, depth, CNeedMore) chunks in
-  let r2 := drain_all isq depth (buf ++ concat chunks) in
-  fst r1 = fst (fst (fst r2)) /\ snd (snd r1) = snd r2 /\
-  (snd r2 = CNeedMore -> snd r1 = (snd (fst (fst r2)), snd (fst r2), CNeedMore)).
-Proof. exact chunking_independent. Qed.
+  forall (isq : value -> bool) (chunks : list bytes),
+  fst (conn_run isq conn_init chunks) = fst (whole isq (concat chunks)) /\
+  (c_end (snd (conn_run isq conn_init chunks)) = Open <-> snd (whole isq (concat chunks)) = Open) /\
+  (c_end (snd (conn_run isq conn_init chunks)) = ClosedByQuit <-> snd (whole isq (concat chunks)) = ClosedByQuit).
+Proof. exact real_run_is_whole. Qed.
 Print Assumptions C13_chunking_independent.
+
+(* from any open connection state whose buffer is a pending remainder *)
+Theorem C13_chunking_independent_from :
+  forall (isq : value -> bool) (chunks : list bytes) (cn : conn),
+  c_end cn = Open -> drain_all isq (c_depth cn) (c_buf cn) = ([], c_buf cn, c_depth cn, CNeedMore) -> (length (c_buf cn) <= cap)%nat ->
+  let r := conn_run isq cn chunks in
+  let '(vs, b, d, s) := drain_all isq (c_depth cn) (c_buf cn ++ concat chunks) in
+  fst r = vs /\ (c_end (snd r) = Open <-> end_of s b = Open) /\ (c_end (snd r) = ClosedByQuit <-> end_of s b = ClosedByQuit).
+Proof. exact chunking_independent_real. Qed.
+Print Assumptions C13_chunking_independent_from.
 
 Theorem C13_two_splittings_agree :
   forall (isq : value -> bool) (cs1 cs2 : list bytes),
   concat cs1 = concat cs2 ->
-  fst (run_nocap isq ([], 0%nat, CNeedMore) cs1) = fst (run_nocap isq ([], 0%nat, CNeedMore) cs2) /\
-  snd (snd (run_nocap isq ([], 0%nat, CNeedMore) cs1)) = snd (snd (run_nocap isq ([], 0%nat, CNeedMore) cs2)).
-Proof. exact two_splittings_agree. Qed.
+  fst (conn_run isq conn_init cs1) = fst (conn_run isq conn_init cs2) /\
+  (c_end (snd (conn_run isq conn_init cs1)) = Open <-> c_end (snd (conn_run isq conn_init cs2)) = Open).
+Proof. exact two_splittings_agree_real. Qed.
 Print Assumptions C13_two_splittings_agree.
 
-(* the buffer cap (MAX_BUFFER_SIZE, regenerated): the loop only parses buffers of at most cap
-   bytes, the stored leftover never exceeds the buffer it was decoded from, the transient excess is
-   at most the chunk just read, a connection closed by the cap emits nothing; and while the cap is
-   not hit the loop is exactly the cap-less one of the chunking theorem *)
+(* locality of decoding (converse of prefix stability): a value decoded from a buffer is decoded, with the
+   same consumed length, from every prefix containing the consumed bytes; hence the undecoded remainder
+   of a connection is a strict prefix of the frame that completes it *)
+Theorem C13_decode_local :
+  forall depth d x v c dp,
+  parse_with depth (d ++ x) = (POk v c, dp) -> (c <= length d)%nat -> parse_with depth d = (POk v c, dp).
+Proof. exact parse_with_restrict. Qed.
+Print Assumptions C13_decode_local.
+
+(* the buffer limit (MAX_BUFFER_SIZE, regenerated): between reads an open connection holds at most cap
+   undecoded bytes, during a read at most the chunk just read more, the remainder never grows by decoding *)
 Theorem C13_buffer_cap :
   forall (isq : value -> bool) (cn : conn) (chunk : bytes),
   c_end cn = Open -> (length (c_buf cn) <= cap)%nat ->
   let r := conn_feed isq cn chunk in
   (length (c_buf cn ++ chunk) <= cap + length chunk)%nat /\
-  (c_end (snd r) <> ClosedByCap -> (length (c_buf cn ++ chunk) <= cap)%nat /\ (length (c_buf (snd r)) <= length (c_buf cn ++ chunk))%nat) /\
-  (c_end (snd r) = ClosedByCap -> fst r = []).
+  (length (c_buf (snd r)) <= length (c_buf cn ++ chunk))%nat /\
+  (c_end (snd r) = Open -> (length (c_buf (snd r)) <= cap)%nat).
 Proof. exact buffer_cap. Qed.
 Print Assumptions C13_buffer_cap.
-
-Theorem C13_below_cap_is_capless :
-  forall (isq : value -> bool) (cn : conn) (chunk : bytes),
-  c_end cn = Open -> (length (c_buf cn ++ chunk) <= cap)%nat ->
-  fst (conn_feed isq cn chunk) = fst (feed_nocap isq (c_buf cn, c_depth cn, CNeedMore) chunk).
-Proof. exact conn_feed_nocap. Qed.
-Print Assumptions C13_below_cap_is_capless.
 
 Example C13_examples :
   parse_top [42;50;13;10;36;51;13;10;102;111;111;13;10;58;52;50;13;10] = POk (Arr [Bulk (Some [102;111;111]); Int 42]) 18 /\
